@@ -8,7 +8,9 @@ RULE = ("histories in a fresh process each: optionally PaddingFactory::default()
         "from the built-in default or from a custom scheme; 1-4 sessions opened through Client::create_stream over in-memory "
         "transports, each paired with a real server Session holding the same or a different scheme (or none); the first packet "
         "(Settings+HeartRequest+SYN) flushed; data packets on any open session; UpdatePaddingScheme frames injected directly "
-        "(parsable, unparsable, non-UTF-8, empty); a final query of the default. Observed: padding0 of each preamble, announced "
+        "(parsable, unparsable, non-UTF-8, empty); successive pushes of 2-4 schemes with the same entries but different bytes (lines permuted, "
+        "trailing newline, CRLF, blanks around = , -, a duplicated key where the last wins, an unknown extra key, junk lines) each "
+        "followed by new sessions; a final query of the default. Observed: padding0 of each preamble, announced "
         "padding-md5, frames sent by the server, write lengths of every packet. Oracle (from the property text): a server pushes "
         "iff the announced digest differs from its own; after a parsable push the session's later packets are accepted by the "
         "pushed scheme's line k (C05 acceptor) and every later session's preamble / Settings / packets use it; an unparsable "
@@ -44,6 +46,45 @@ def pool_scheme(r, j):
             ln = "%d-%d,%d-%d" % (30 + j, 30 + j, s, s)
         lines.append("%d=%s" % (k, ln))
     return "\n".join(lines).encode()
+
+
+def variant(r, raw, kinds=None):
+    """a scheme with the same entries as `raw` but different bytes (its md5, hence its identity, differs)"""
+    lines = raw.decode().split("\n")
+    kinds = kinds or r.sample(["permute", "trail", "crlf", "eqspace", "commaspace", "dupkey", "extrakey", "junkline", "dashspace"], r.choice([1, 1, 2, 3]))
+    keys = [ln.split("=")[0].strip() for ln in lines if "=" in ln]
+    if len(set(keys)) != len(keys):
+        kinds = [kd for kd in kinds if kd != "permute"] or ["trail"]     # duplicated keys: the order matters
+    kinds = sorted(kinds, key=lambda kd: kd != "permute")     # permute first: dupkey relies on line order
+    sep, tail = "\n", ""
+    for kd in kinds:
+        if kd == "permute" and len(lines) > 1:
+            first = lines[:]
+            while lines == first:
+                r.shuffle(lines)
+        elif kd == "trail":
+            tail = "\n"
+        elif kd == "crlf":
+            sep = "\r\n"
+        elif kd == "eqspace":
+            lines = [ln.replace("=", r.choice([" = ", " =", "=\t"]), 1) if "=" in ln else ln for ln in lines]
+        elif kd == "commaspace":
+            lines = [ln.replace(",", " , ") for ln in lines]
+        elif kd == "dashspace":
+            lines = [ln.replace("-", " - ") for ln in lines]
+        elif kd == "dupkey":
+            # an earlier binding of an existing key that the later (real) one overrides
+            i = r.randrange(len(lines))
+            key = lines[i].split("=")[0].strip()
+            lines.insert(r.randint(0, i), key + ("=7" if key == "stop" else "=1-1"))
+        elif kd == "extrakey":
+            lines.insert(r.randint(0, len(lines)), r.choice(["x=1", "comment=same entries", "99=5-5"]))
+        elif kd == "junkline":
+            lines.insert(r.randint(0, len(lines)), r.choice(["# same scheme", "novalue", ""]))
+    out = (sep.join(lines) + tail).encode()
+    if out == raw:
+        out = raw + b"\n"
+    return out
 
 
 JUNK_PUSH = [b"junk", b"stop=abc\n1=5-5", b"1=5-5\n2=6-6", b"stop=-1", b"stop=4294967296", b"\xff\xfe=1", b"stop 3", b"=3", b"stop=\xc3\x28"]
@@ -90,6 +131,43 @@ def gen_cases(tier, seed):
             ops.append("Q")
         c = PCase("h%d" % n, "c19", ops, "history-default-client" if use_default else "history-custom-client", False, model=ascii_only)
         c.nontrivial = nontrivial(c)
+        cs.append(c)
+    # successive pushes of schemes that differ only in their BYTES (same entries): a scheme is identified by the
+    # md5 of its raw text, so each of them must be adopted and announced by the sessions opened afterwards
+    nv = 90 if tier == "quick" else 1500
+    for n in range(nv):
+        base = pool_scheme(r, r.randint(0, 3))
+        vs = [base]
+        for _ in range(r.choice([1, 2, 2, 3])):
+            v = variant(r, r.choice(vs))
+            if v not in vs:
+                vs.append(v)
+        if r.random() < 0.5:
+            r.shuffle(vs)
+        ops = []
+        if r.random() < 0.4:
+            ops.append("D")
+        ops.append("C:default" if r.random() < 0.4 else "C:" + hx(pool_scheme(r, 5)))
+        i = 0
+        via_server = r.random() < 0.6
+        if not via_server:
+            ops += ["N:-", "K:0"]
+            i = 1
+        for j, v in enumerate(vs):
+            if via_server:
+                ops += ["N:" + hx(v), "K:%d" % i]
+                i += 1
+            else:
+                ops.append("P:%d:%s" % (r.randint(0, i - 1), hx(v)))
+            if r.random() < 0.5:
+                ops.append("W:%d:%d" % (r.randint(0, i - 1), r.choice([1, 10, 60, 400])))
+        # the sessions opened afterwards must announce the LAST pushed text, so its holder pushes nothing
+        ops += ["N:" + hx(vs[-1]), "K:%d" % i]
+        if r.random() < 0.5:
+            ops += ["N:" + hx(vs[-1] if r.random() < 0.7 else vs[0]), "K:%d" % (i + 1)]
+        if r.random() < 0.7:
+            ops.append("Q")
+        c = PCase("v%d" % n, "c19", ops, "history-byte-variants", True)
         cs.append(c)
     return cs
 
